@@ -75,6 +75,25 @@ func init() {
 				}
 			}
 			if r.Intn(6) == 0 {
+				// twins that differ in their namespace only, ONE of them marked local-config, under a namespace directive: the
+				// move makes them collide; whatever happens to the build, two emitted resources never share an id
+				L := t.Layers[r.Intn(len(t.Layers))]
+				if L.NS == "" {
+					L.NS = pickS(r, []string{"prod", "ns1"})
+					L.Kust["namespace"] = L.NS
+				}
+				mk := func(ns string, local bool) Obj {
+					md := Obj{"name": "twin", "namespace": ns}
+					if local {
+						md["annotations"] = Obj{"config.kubernetes.io/local-config": "true"}
+					}
+					return Obj{"apiVersion": "v1", "kind": "ConfigMap", "metadata": md, "data": Obj{"from": ns}}
+				}
+				first := r.Intn(2) == 0
+				L.ResF = append(L.ResF, "twins.yaml")
+				L.Docs["twins.yaml"] = []Obj{mk("ns-a", first), mk("ns-b", !first)}
+			}
+			if r.Intn(6) == 0 {
 				// a resource that has no name (only `generateName`, an empty name, a null name): such a build fails, or — if it
 				// ever succeeds — still emits nothing without a name
 				L := t.Layers[r.Intn(len(t.Layers))]
